@@ -157,11 +157,20 @@ impl Property for TamperDigits {
                 let is_processed = processed_names.iter().any(|n| n == frag.file_name().unwrap());
                 let text = std::fs::read_to_string(frag).map_err(|e| ("harness:io".to_string(), e.to_string()))?;
                 let txns = layout(&text);
-                if txns.len() < 2 {
+                // One pick in five aims at the output digest of the roll-up that heads the fragment:
+                // the one digest of a roll-up that is "recorded output" (its I and D are carried over
+                // from the previous fragment's last transaction and are documented not to balance).
+                // Only the offline verifier can tell when no transaction follows the roll-up.
+                let rollup = *tsel % 5 == 0 && !txns.is_empty();
+                if rollup && txns.len() < 2 && !is_processed {
+                    o.label("rollup-only-fragment-not-processed:skipped");
                     continue;
                 }
-                let ti = 1 + vcore::gens::sel(*tsel, txns.len() - 1);
-                let lines: Vec<&Line> = txns[ti].iter().filter(|l| matches!(l.action, '+' | '-' | 'I' | 'O' | 'D')).collect();
+                if !rollup && txns.len() < 2 {
+                    continue;
+                }
+                let ti = if rollup { 0 } else { 1 + vcore::gens::sel(*tsel, txns.len() - 1) };
+                let lines: Vec<&Line> = txns[ti].iter().filter(|l| if rollup { l.action == 'O' } else { matches!(l.action, '+' | '-' | 'I' | 'O' | 'D') }).collect();
                 if lines.is_empty() {
                     continue;
                 }
@@ -192,7 +201,7 @@ impl Property for TamperDigits {
                 let by_manifest_verifier = mv.verify(&tampered).is_err();
                 let by_offline = if is_processed { verifier_verdict(&cfg, &scratch).is_err() } else { false };
                 let _ = std::fs::remove_dir_all(&scratch);
-                o.label(format!("tampered:{}", line.action));
+                o.label(if rollup { "tampered:roll-up-O".to_string() } else { format!("tampered:{}", line.action) });
                 if by_manifest_verifier {
                     o.label("rejected-by:ManifestVerifier");
                 }
@@ -200,14 +209,14 @@ impl Property for TamperDigits {
                     o.label("rejected-by:LsmVerifier");
                 }
                 if !by_manifest_verifier && !by_offline {
-                    return Err((format!("tamper:accepted:{}", line.action), format!("no verifier rejected a history in which {what} was altered (fragment is {}processed by the offline verifier)", if is_processed { "" } else { "not " })));
+                    return Err((format!("tamper:accepted:{}", if rollup { "roll-up-O".to_string() } else { line.action.to_string() }), format!("no verifier rejected a history in which {what} was altered (fragment is {}processed by the offline verifier)", if is_processed { "" } else { "not " })));
                 }
                 if is_processed {
                     o.label("tampered-fragment-is-processed-by-offline-verifier");
                 }
                 if is_processed && !by_offline {
                     // the offline verifier processes this fragment: it alone must reject it
-                    return Err((format!("tamper:offline-verifier-accepted:{}", line.action), format!("the offline verifier accepted a fragment in which {what} was altered")));
+                    return Err((format!("tamper:offline-verifier-accepted:{}", if rollup { "roll-up-O".to_string() } else { line.action.to_string() }), format!("the offline verifier accepted a fragment in which {what} was altered")));
                 }
             }
             Ok(())
